@@ -956,10 +956,11 @@ Section Full.
     (forall t, In t ts -> in_range o t -> (t = t0 W o -> init_ok (fst r) o) /\ (tf W o <> None -> dict_ok (fst r) o t)).
   Proof.
     induction ts as [|t r IH]; intro s; simpl.
-    - repeat split; auto; try (intros; apply same_attrs_refl); contradiction.
-    - destruct (at_effect s o t) as [A1 [A2 [A3 [A4 A5]]]].
+    - split; [reflexivity|]. split; [intros; apply same_attrs_refl|]. split; [auto|]. split; [auto|].
+      intros t [].
+    - pose proof (at_effect s o t) as A. cbv zeta in A. destruct A as [A1 [A2 [A3 [A4 A5]]]].
       destruct (assign_dyn_at W false o t s) as [s1 out] eqn:E. simpl in *. subst out.
-      destruct (IH s1) as [B1 [B2 [B3 [B4 B5]]]].
+      pose proof (IH s1) as B. cbv zeta in B. destruct B as [B1 [B2 [B3 [B4 B5]]]].
       split; [exact B1|]. split; [|split; [|split]].
       + intros o' N. eapply same_attrs_trans; [apply A2 | apply B2]; exact N.
       + auto.
@@ -1001,7 +1002,7 @@ Section Full.
       assert (P : forall o', o' <> o -> same_attrs s s1 o').
       { intros o' N. unfold s1, same_attrs. destruct (tf W o); [|auto]. simpl.
         destruct (ca s o); destruct (sa s o); rewrite ?upd_other by exact N; auto. }
-      destruct (times_effect o (horizon W o) s1) as [B1 [B2 [B3 [B4 B5]]]].
+      pose proof (times_effect o (horizon W o) s1) as B. cbv zeta in B. destruct B as [B1 [B2 [B3 [B4 B5]]]].
       destruct (horizon_range Hwf o) as [H0 HR].
       split; [exact B1|]. split.
       + split.
@@ -1015,10 +1016,10 @@ Section Full.
     snd r = Done /\ (forall o, In o ids -> full (fst r) o) /\ (forall o, full s o -> full (fst r) o).
   Proof.
     induction ids as [|o rest IH]; intro s; simpl.
-    - repeat split; auto. contradiction.
-    - destruct (one_effect Hwf o s) as [A1 [A2 A3]].
+    - split; [reflexivity|]. split; [intros o []|auto].
+    - pose proof (one_effect Hwf o s) as A. cbv zeta in A. destruct A as [A1 [A2 A3]].
       destruct (assign_one W None false o s) as [s1 out] eqn:E. simpl in *. subst out.
-      destruct (IH s1) as [B1 [B2 B3]].
+      pose proof (IH s1) as B. cbv zeta in B. destruct B as [B1 [B2 B3]].
       assert (KP : forall x, full s x -> full s1 x).
       { intros x Fx. destruct (Z.eq_dec x o) as [->|N]; [exact A2 | eapply same_attrs_full; [apply A3; exact N | exact Fx]]. }
       split; [exact B1|]. split.
@@ -1059,7 +1060,7 @@ Lemma reachable_assign_all W ops : wf W -> all_ok W ops init = true ->
 Proof.
   intros Hwf H s r.
   assert (I : Inv W false none s) by (apply reachable_inv; [exact H | discriminate]).
-  destruct (ids_effect W Hwf (statics s ++ dynamics s) s) as [A [B _]].
+  pose proof (ids_effect W Hwf (statics s ++ dynamics s) s) as A0. cbv zeta in A0. destruct A0 as [A [B _]].
   split; [exact A|]. split.
   - intros o Hp. apply present_In in Hp. destruct (B o) as [C _]; [apply in_or_app; exact Hp | exact C].
   - intros o Ho F t Ht. destruct (B o) as [_ C]; [apply in_or_app; right; exact Ho|].
